@@ -67,7 +67,7 @@ func main() {
 		if runService(*prof, *seed, *cases, *from, out, *statsPath) {
 			return
 		}
-		if runSpecial(*prof, *seed, *cases, out, *statsPath) {
+		if runSpecial(*prof, *seed, *cases, *from, out, *statsPath) {
 			return
 		}
 		fmt.Fprintln(realStderr, "unknown profile", *prof)
